@@ -79,3 +79,19 @@ Theorem C18_client_selects_noauth : forall r ms rest o,
   v5_read_auth_methods r = Done ms rest -> client_dialog5 (5 :: r) = Some o ->
   (In 0 ms -> firstn 2 o = [5; 0]) /\ (~ In 0 ms -> o = [5; 255]).
 Proof. exact client_selects_noauth. Qed.
+
+Theorem C18_client_v4_rejects_other_commands : forall r cmd a port rest,
+  v4_read_request r = Done (cmd, a, port) rest -> cmd <> 1 ->
+  client_dialog (4 :: r) = Some [0; 91; 0; 0; 0; 0; 0; 0].
+Proof. exact client_v4_rejects_other_commands. Qed.
+
+Theorem C18_client_connect_target_v4a : forall r dom port rest,
+  v4_read_request r = Done (1, ADom dom, port) rest ->
+  client_connect (4 :: r) = Some ([0; 90; 0; 0; 0; 0; 0; 0], dom, port).
+Proof. exact client_connect_target_v4a. Qed.
+
+Theorem C18_client_connect_target_v5 : forall r ms rest dom port rest',
+  v5_read_auth_methods r = Done ms rest -> In 0 ms ->
+  v5_read_request rest = Done (1, ADom dom, port) rest' ->
+  client_connect (5 :: r) = Some ([5; 0; 5; 0; 0; 1; 0; 0; 0; 0; 0; 0], dom, port).
+Proof. exact client_connect_target_v5. Qed.
